@@ -22,6 +22,19 @@ CLAIMED = {
     },
 }
 
+CLAIMED["C19"] = {
+    "text": "Decides the pass-through chain on MIR: (a) in the call_lib handler the JumpRequest.arguments field derives from "
+            "Ctx::get_local_operating_stack() through Clone::clone only, the snapshot is taken before the stack is cleared, and the "
+            "destination is Library{args[0], args[1]}; (b) the Library arm of process_jump_request passes &request.arguments and the "
+            "destination's names unchanged and returns the callee's result; (c) process_library_jump_request calls the symbol obtained from "
+            "Library::new(lib).get(func) with exactly its `args` parameter and returns Ok(result) verbatim, and failures of new/get propagate "
+            "(context + ?) before the foreign call; (d) in Function::run an Err or FFIError result reaches an Err return from which no "
+            "instruction handler or push is reachable, and a Value result is pushed on every path to the next instruction. Does not decide "
+            "the ABI of the loaded symbol (unsafe trust boundary).",
+    "technique": "static analysis: value-origin slicing (pass-through), dominators / no-call-after-failure over rustc MIR",
+    "design_ref": "DESIGN.md §5 C19",
+}
+
 NOT_APPLICABLE = {
     "C01": "observable is program output; mechanism is relative jump offsets computed from Vec::len() arithmetic of recursively compiled blocks - deciding it needs symbolic execution of the generators (a different family); see DESIGN.md §5 C01",
     "C09": "a property of the compiler's *output* for all programs (jump targets, frame balance, operand-stack shape): needs symbolic block lengths or a verifier over emitted bytecode (translation validation), not an analysis of /repo's source; DESIGN.md §5 C09",
